@@ -92,6 +92,11 @@ def gen_device(rng, kind=None):
             continue
         down.add(code)
         ev.append({"t": "k", "sub": sub, "code": code, "val": 1})
+    # pacing markers (25 ms of silence before the next event: see the harness): the next event then meets LED frames with no event of
+    # its own in between, which is what exposes an unsynchronised access to the race detector
+    if ev and rng.random() < 0.5:
+        for _ in range(rng.choice([1, 2])):
+            ev.insert(rng.randrange(len(ev) + 1), {"t": "k", "sub": "", "code": 0, "val": 2})
     kind = kind or rng.choice(["led"] * 8 + ["early", "noserver"])
     d = {"cfg": cfg, "abs": [], "events": ev, "leds": c17.gen_layout(rng, cfg), "close_us": rng.randrange(0, 25000),
          "early_ms": -1, "no_server": False, "midi_stream": rng.random() < 0.75}
@@ -123,10 +128,14 @@ def gen(rng, tier):
             cfg["mappings"][1]["midi"] = [kk for kk in cfg["mappings"][1]["midi"] if kk["code"] != vict["code"]]
             cfg["mapping"] = 0
             cfg["exitseq"] = []
+            cfg["octave"], cfg["semitone"] = 0, 0          # the victim key must really sound (pitch in range)
             ev = []
             for _r in range(12):
                 ev += [{"t": "k", "sub": vict["sub"], "code": vict["code"], "val": 1}, {"t": "k", "sub": "", "code": act["mapping_up"], "val": 1},
-                       {"t": "k", "sub": "", "code": act["mapping_up"], "val": 0}, {"t": "k", "sub": vict["sub"], "code": vict["code"], "val": 0}]
+                       {"t": "k", "sub": "", "code": act["mapping_up"], "val": 0}]
+                if _r % 3 == 0:
+                    ev.append({"t": "k", "sub": "", "code": 0, "val": 2})      # pacing marker: 25 ms of silence (see the harness), then the stale release
+                ev.append({"t": "k", "sub": vict["sub"], "code": vict["code"], "val": 0})
                 if "mapping_down" in act:
                     ev += [{"t": "k", "sub": "", "code": act["mapping_down"], "val": 1}, {"t": "k", "sub": "", "code": act["mapping_down"], "val": 0}]
             d.update({"cfg": cfg, "events": ev, "leds": c17.gen_layout(rng, cfg), "close_us": 15000})
